@@ -130,7 +130,8 @@ def content(pool, k, j):
         if kind == 'identity':
             d['name'] = 'identity %d v%d' % (e['id_n'], j)
         if e.get('big'):
-            d['labels'] = d['labels'] + ['L' * e['big']]
+            # several strings, each larger than a write buffer: the file reaches the disk in several writes
+            d['labels'] = d['labels'] + ['L%d' % i + 'L' * 9000 for i in range(1 + e['big'] // 9000)]
         return d
     if kind == 'rel':
         d = C.build(ver, 'relationship', e['id_n'], e['created_us'], e['versions'][j])
@@ -155,12 +156,14 @@ def content(pool, k, j):
         d['definition'] = {'statement': 'Copyright %d' % e['id_n']}
         return d
     if kind == 'custom':
-        d = {'type': 'x-sim-widget', 'id': C.mkid('x-sim-widget', e['id_n']), 'name': 'widget v%d' % j + 'W' * e.get('big', 0), 'size': j}
+        d = {'type': 'x-sim-widget', 'id': C.mkid('x-sim-widget', e['id_n']), 'name': 'widget v%d' % j, 'size': j}
+        if e.get('big'):
+            d['labels'] = ['W%d' % i + 'W' * 9000 for i in range(1 + e['big'] // 9000)]
         _stamp(d, e, j, 3 if ver == '2.0' else None)
         return d
     if kind == 'unreg':
         d = {'type': 'x-unreg-thing', 'id': C.mkid('x-unreg-thing', e['id_n']), 'name': 'thing v%d' % j,
-             'x_list': [1, 2, {'a': 'b' * (1 + e.get('big', 0))}]}
+             'x_list': [1, 2, {'a': 'b'}] + ['U%d' % i + 'U' * 9000 for i in range((e.get('big', 0) + 8999) // 9000)]}
         if e['versions']:
             _stamp(d, e, j, e.get('digits', 3))
         else:
